@@ -86,18 +86,40 @@ func checkC14(p *Prog, r *Report) {
 			if ex, ok := bufArg.(*ssa.Extract); ok {
 				exec, _ = ex.Tuple.(*ssa.Call)
 			}
+			errVal := func(e *ssa.Call) func(x ssa.Value) bool {
+				tup, isTuple := e.Type().(*types.Tuple)
+				return func(x ssa.Value) bool {
+					if !isTuple {
+						return x == ssa.Value(e)
+					}
+					ex, ok := x.(*ssa.Extract)
+					return ok && ex.Tuple == ssa.Value(e) && ex.Index == tup.Len()-1
+				}
+			}
 			if exec == nil {
-				r.Bad(key, p.InstrPos(u), "the data written to the caller's writer is not the buffer returned by the buffered execution (%s)", p.VN(bufArg))
+				// the buffer is a local/pooled object that was handed to the executor as its writer
+				for _, bb := range ew.Blocks {
+					for _, x := range bb.Instrs {
+						cand, isCall := x.(*ssa.Call)
+						if !isCall || cand.Common().StaticCallee() == nil || !p.InPkg(cand.Common().StaticCallee()) {
+							continue
+						}
+						for _, arg := range cand.Common().Args {
+							if stripConv(arg) == bufArg && allFresh(p.Roots(bufArg)) {
+								exec = cand
+							}
+						}
+					}
+				}
+			}
+			if exec == nil {
+				r.Bad(key, p.InstrPos(u), "the data written to the caller's writer is not the buffer the execution rendered into (%s)", p.VN(bufArg))
 				continue
 			}
-			ei := exec.Type().(*types.Tuple).Len() - 1
+			isErr := errVal(exec)
 			g := Guarded(u, func(cond ssa.Value, pol bool) bool {
 				x, eq, isNil := condIsNilTest(cond)
-				if !isNil {
-					return false
-				}
-				e, ok := x.(*ssa.Extract)
-				return ok && e.Tuple == ssa.Value(exec) && e.Index == ei && eq == pol
+				return isNil && isErr(x) && eq == pol
 			})
 			if g {
 				r.OK(key, p.InstrPos(u), "the only use of the caller's writer is %s of the finished buffer, on the err == nil edge of %s", callee, p.calleeName(exec.Common()))
@@ -195,6 +217,27 @@ func checkC14(p *Prog, r *Report) {
 				}
 			}
 		}
+	}
+
+	// ---- R-C14-WRITERTYPE
+	r.Begin("R-C14-WRITERTYPE", "no engine code inspects the dynamic type of the writer it is given (the variants differ only in the writer, so output must not depend on it)", 1)
+	nTA := 0
+	tw := p.Named("TemplateWriter")
+	p.EachInstr(func(f *ssa.Function, in ssa.Instruction) {
+		ta, ok := in.(*ssa.TypeAssert)
+		if !ok {
+			return
+		}
+		T := ta.X.Type()
+		isWriter := (tw != nil && types.Identical(T, tw)) || (ioWriter != nil && types.Identical(T, ioWriter))
+		if !isWriter {
+			return
+		}
+		nTA++
+		r.Bad(p.FuncName(f)+":assert writer", p.InstrPos(in), "the writer's dynamic type is inspected (.(%s)): buffered and unbuffered execution can then produce different bytes, and ExecuteWriter may stream into the caller's writer", typeName(ta.AssertedType))
+	})
+	if nTA == 0 {
+		r.OK("count", "-", "0 type assertions/switches on TemplateWriter or io.Writer values in %d functions", len(p.Funcs))
 	}
 
 	// ---- R-C14-ASSERT
